@@ -9,6 +9,10 @@ C17 -- JSON and XML serialisation round trips.
    SER    JSON values -> serialize($v, map{'method':'json'}), parse-json of it, fn:deep-equal,
           Python's json.loads and the Lean RFC 8259 reader on the produced text
    PARSE  JSON texts with duplicate keys -> parse-json($t, map{'duplicates':...})
+   SERWS  (phase 5) serialize($v, json) [compact / indent] padded with random whitespace strings around every token ->
+          text = Lean padWith ws (jsonTokens v); Lean parseJsonWs, parse-json, json-doc (temp file), json.loads all give v
+   PARSEWS (phase 5) input texts with whitespace / truncation / stray characters -> Lean parseJsonWs = json.loads;
+          parse-json (4 policies) = model post-processing = F&O policy; json-doc = parse-json
    J2X    JSON texts -> json-to-xml($t) tree, xml-to-json(json-to-xml($t)) text, json.loads of it
    X2J    generated fn:* element trees (valid and invalid) -> xml-to-json(.)
    XML    generated XML trees (ElementTree and lxml; root / inner element with tail / XML declaration / document
@@ -20,7 +24,7 @@ C17 -- JSON and XML serialisation round trips.
    XESC   strings -> ElementTree._escape_cdata/_escape_attrib, lxml text escaping (library code, modelled),
           the spec XML reader vs expat, and parse-xml(serialize(<a k=s>s</a>)) on both backends
    JXE    strings through json-to-xml(..., escape:true) / xml-to-json: text, `escaped` flag, output (model tie)
-   J2XE   whole values with escape:true (observed against the standard)
+   J2XE   whole values with escape:true: tree with escaped / escaped-key flags and xml-to-json text = Lean model; value = spec
    NEG    error exits and option variants of the anchored functions (expected results from F&O / Serialization)
  search    : exhaustive small-scope enumeration (all strings of length <= 3 over the critical alphabet,
              all number shapes with exponents -25..25, all one-level containers of the seed scalars)
@@ -1006,6 +1010,262 @@ def check_parse(run: Run, case, ans) -> list[Disagreement]:
     return out
 
 
+# ---- phase 5: insignificant whitespace (RFC 8259 §2) -----------------------------------------
+JSON_TOKEN = re.compile(r'[ \t\n\r]*("(?:[^"\\]|\\.)*"|[\[\]{},:]|[^\[\]{},:" \t\n\r]+)', re.S)
+WS_STRINGS = ['a  b , c : d ] e } f [ g { h', ' ', '  ', ' ,', ' :', ' ]', ' }', '[ 1 , 2 ]', '{ "a" : 1 }', ' x ', ', ', ': ']
+WS_POOL = ['', '', '', ' ', '\n', '\t', '\r', '\r\n', '  ', '\n    ', ' \t\r\n ', '\n\n']
+
+
+def split_tokens(t: str):
+    """(whitespace strings — one before each token and one at the end —, tokens) of a JSON text; harness-side
+    tokenizer, independent of the Lean token function and of python json"""
+    wss, toks, pos = [], [], 0
+    while True:
+        m = JSON_TOKEN.match(t, pos)
+        if not m:
+            break
+        wss.append(t[pos:m.start(1)])
+        toks.append(m.group(1))
+        pos = m.end()
+    rest = t[pos:]
+    if rest.strip(' \t\n\r'):
+        raise ValueError('untokenizable JSON text %r' % (t,))
+    return wss + [rest], toks
+
+
+def impl_json_doc(t: str) -> str:
+    """fn:json-doc on a file holding the text (UTF-8, newline translation off)"""
+    import tempfile, os
+    fd, path = tempfile.mkstemp(suffix='.json', prefix='c17ws')
+    try:
+        with os.fdopen(fd, 'w', encoding='utf-8', newline='') as fp:
+            fp.write(t)
+        return enc(from_xdm(xq_item('json-doc($u)', u=path)))
+    except Exception as e:
+        return err_text(e)
+    finally:
+        try:
+            os.unlink(path)
+        except OSError:
+            pass
+
+
+def prepare_serws(run: Run, c) -> None:
+    """live serialization (compact or `indent`), padding, whitespace strings for the driver"""
+    import random as _random
+    v = c['v']
+    try:
+        if c['mode'] == 'indent':
+            text = xq('serialize($v, map{"method":"json","indent":true()})', v=to_xdm(v))
+        else:
+            text = xq('serialize($v, map{"method":"json"})', v=to_xdm(v))
+    except Exception as e:
+        c['_text'], c['_ws'] = err_text(e), None
+        return
+    if not isinstance(text, str):
+        c['_text'], c['_ws'] = '?not-a-string:%r' % (text,), None
+        return
+    try:
+        wss, toks = split_tokens(text)
+    except ValueError as e:
+        c['_text'], c['_ws'] = '?' + str(e), None
+        return
+    if c['mode'] != 'indent':
+        r = _random.Random(c['wseed'])
+        wss = [r.choice(WS_POOL) for _ in range(len(toks) + 1)]
+        if c['mode'] == 'pad-long':
+            wss[r.randrange(len(wss))] = ''.join(r.choice(' \t\n\r') for _ in range(r.randrange(20, 200)))
+        text = ''.join(w + t for w, t in zip(wss, toks)) + wss[-1]
+    c['_text'], c['_ws'], c['_ntok'] = text, wss, len(toks)
+
+
+def check_serws(run: Run, case, ans) -> list[Disagreement]:
+    out = []
+    st = run.stats
+    v, text, wss = case['v'], case['_text'], case['_ws']
+    expect = enc(v)
+    cj = dict(case_json(case), text=text)
+    if wss is None:
+        return [Disagreement(cj, text, None, spec=expect, what='serialize-json(indent)-raises', site='serialization.serialize_to_json')]
+    f = fields(ans)
+    if f.get('okws') != '1':
+        return [Disagreement(cj, 'harness:ws', f.get('okws'), what='protocol')]
+    # tie: the text of the real serializer (padded / indented) is the model's tokens with these whitespace strings
+    if f['cat'] != '1' or uncps(f['text']) != text or int(f['n']) != case['_ntok']:
+        out.append(Disagreement(cj, cps(text), f['text'], what='serialize-json tokens + whitespace (padWith ws (jsonTokens v))',
+                                site='serialization.serialize_to_json'))
+    # theorem instance
+    if f['parsed'] != expect:
+        out.append(Disagreement(cj, f['parsed'], f['parsed'], what='model-ws-roundtrip (theorem instance)'))
+    # the property on the real code: parse-json / json-doc / python json read the padded text back to v
+    try:
+        back = enc(from_xdm(xq_item('parse-json($t)', t=text)))
+    except Exception as e:
+        back = err_text(e)
+    if back != expect:
+        out.append(Disagreement(cj, back, f['parsed'], spec=expect, what='parse-json(whitespace-padded serialize(v))',
+                                site='parse-json'))
+    if case.get('doc'):
+        jd = impl_json_doc(text)
+        st.count('serws:json-doc')
+        if jd != expect:
+            out.append(Disagreement(cj, jd, f['parsed'], spec=expect, what='json-doc(file with whitespace-padded serialize(v))',
+                                    site='json-doc'))
+    try:
+        pj = enc(py_loads(text))
+    except Exception as e:
+        pj = 'ERR:' + type(e).__name__
+    if pj != expect:
+        out.append(Disagreement(cj, pj, f['parsed'], spec=expect, what='python-json(whitespace-padded serialize(v))',
+                                site='serialization.serialize_to_json'))
+    st.count('serws:mode=' + case['mode'])
+    st.count('serws:tokens=' + ('1' if case['_ntok'] == 1 else '2-9' if case['_ntok'] < 10 else '10-99' if case['_ntok'] < 100 else '100+'))
+    for w in set(ch for x in wss for ch in x):
+        st.count('serws:ws-char=U+%04X' % ord(w))
+    if wss[0]:
+        st.count('serws:leading-ws')
+    if wss[-1]:
+        st.count('serws:trailing-ws')
+    return out
+
+
+def floats_exact(t: str) -> bool:
+    """every literal with fraction/exponent is the shortest spelling's value of its own double (no rounding by float())"""
+    try:
+        pv = json.loads(t, parse_float=Decimal, object_pairs_hook=Obj)
+    except Exception:
+        return True
+    for n in all_numbers(pv):
+        if isinstance(n, Decimal):
+            try:
+                if not n.is_finite() or Decimal(repr(float(n))) != n:
+                    return False
+            except Exception:
+                return False
+    return True
+
+
+def check_parsews(run: Run, case, ans) -> list[Disagreement]:
+    """arbitrary JSON input texts with whitespace (and escape / number spellings, duplicate keys): Lean RFC reader with ws
+    = python json; fn:parse-json = model post-processing of the Lean reading = F&O policy"""
+    out = []
+    f = fields(ans)
+    t = case['t']
+    if not floats_exact(t):          # JSON's number model rounds (xs:double): the J2X family covers those with `rnd`
+        run.stats.count('parsews:skipped (a literal is rounded by float())')
+        return out
+    impl = impl_parse(t, case['policy'])
+    try:
+        pv = py_loads(t)
+        pyval = enc(pv)
+    except Exception as e:
+        pv, pyval = None, 'ERR'
+    if f['val'] != pyval:
+        out.append(Disagreement(case_json(case), pyval, f['val'], what='lean-rfc-ws-reader vs python-json (spec validation)'))
+        return out
+    model = f['pj'] if f['pj'] != 'ERR' else 'ERR:FOJS0001'
+    if impl != model:
+        out.append(Disagreement(case_json(case), impl, model, what='parse-json on a text with whitespace', site='parse-json'))
+    spec = f['spec'] if f['spec'] != 'ERR' else ('ERR:FOJS0003' if pv is not None else 'ERR:FOJS0001')
+    if pv is None or xml_valid(pv):
+        if impl != spec:
+            out.append(Disagreement(case_json(case), impl, model, spec=spec, what='parse-json (whitespace, duplicates policy)',
+                                    site='parse-json'))
+    if case.get('doc') and case['policy'] is None:
+        jd = impl_json_doc(t)
+        if jd != impl:
+            out.append(Disagreement(case_json(case), jd, model, spec=impl, what='json-doc vs parse-json on the same text', site='json-doc'))
+    run.stats.count('parsews:' + ('ERR' if pv is None else 'ok') + (':ws' if f['val'] != f['cmp'] else ':compact'))
+    return out
+
+
+# ---- CR mark on the whole serialized element (Model/XmlCrMark.lean) ---------------------------
+def crm_build(case):
+    """(ElementTree element, pieces) — pieces as ElementTree writes a root element: `<tag xmlns:ns0="URI" k="V">TEXT<b />TAIL<!--C--></tag>`"""
+    ET = ep()['ET']
+    uri = case.get('uri')
+    el = ET.Element('{%s}a' % uri if uri else 'a')
+    tagname = 'ns0:a' if uri else 'a'
+    ps = [('M', '<' + tagname)]
+    if uri:
+        ps += [('M', ' xmlns:ns0="'), ('U', uri), ('M', '"')]
+    for k, v in case['attrs']:
+        el.set(k, v)
+        ps += [('M', ' %s="' % k), ('A', v), ('M', '"')]
+    text, tail, comment = case.get('text'), case.get('tail'), case.get('comment')
+    kids = tail is not None or comment is not None
+    if not text and not kids:
+        ps.append(('M', ' />'))
+        return el, ps
+    ps.append(('M', '>'))
+    if text:
+        el.text = text
+        ps.append(('C', text))
+    if tail is not None:
+        b = ET.SubElement(el, 'b')
+        b.tail = tail
+        ps += [('M', '<b />'), ('C', tail)]
+    if comment is not None:
+        el.append(ET.Comment(comment))
+        ps += [('M', '<!--'), ('R', comment), ('M', '-->')]
+    ps.append(('M', '</%s>' % tagname))
+    return el, ps
+
+
+def gen_crm(rng) -> dict:
+    pool = XML_TEXT + XML_PUA + XML_PUA[:6]
+    attrs = []
+    for k in rng.sample(['k', 'm', 'n1'], rng.randrange(0, 3)):
+        attrs.append((k, rng.choice(pool)))
+    r = rng.random()
+    uri = None if r < 0.6 else 'urn:one' if r < 0.93 else rng.choice(['u\ue000', 'urn:\ue001x', '\ue000\ue001'])
+    text = rng.choice(pool + ['\r', 'x\ry', '\r\n'])
+    if rng.random() < 0.6 and '\r' not in text:
+        text += rng.choice(['\r', '\r\n', 'a\rb'])
+    return {'kind': 'CRM', 'uri': uri, 'attrs': attrs, 'text': text,
+            'tail': rng.choice([None, None, 't', 'u\rv', '\ue000', '\ue001\r']),
+            'comment': rng.choice([None, None, 'c', '\ue000', '\ue002\ue001'])}
+
+
+def crm_line(case) -> str:
+    _, ps = crm_build(case)
+    return 'CRMARK a=1 p=' + ','.join(k + cps(v) for k, v in ps)
+
+
+def check_crm(run: Run, case, ans) -> list[Disagreement]:
+    f = fields(ans)
+    el, ps = crm_build(case)
+    cj = {k: v for k, v in case.items() if not k.startswith('_')}
+    try:
+        out = xq('serialize(.)', root=el)
+        impl = 'ok:' + cps(out) if isinstance(out, str) else '?%r' % (out,)
+    except Exception as e:
+        impl = err_text(e)
+    spec = 'ok:' + f['want']
+    tags = ['F17x'] if f['coll'] == '1' else []
+    st = run.stats
+    st.count('crm:%s%s' % ('CR' if f['cr'] == '1' else 'no-CR', ':mark-collides(F17x)' if f['coll'] == '1' else ''))
+    if f['cr'] == '1':
+        st.count('crm:mark=U+%04X' % int(f['mark']) if f['mark'] != 'none' else 'crm:mark=none')
+    res = []
+    if impl != f['out'] or impl != spec:
+        res.append(Disagreement(cj, impl, f['out'], spec=spec, tags=tags, what='serialize(element): CR mark on the whole output',
+                                site='serialization.serialize_to_xml'))
+    elif impl.startswith('ok:'):
+        # the round trip on the same element
+        try:
+            back = xq('parse-xml(serialize(.))', root=el)
+            got = json.dumps(canon_xml((back[0] if isinstance(back, list) else back).getroot()), ensure_ascii=True)
+        except Exception as e:
+            got = err_text(e)
+        want = canon_xml(el)
+        want[4] = ''
+        want = json.dumps(want, ensure_ascii=True)
+        if got != want:
+            res.append(Disagreement(cj, got, None, spec=want, tags=tags, what='parse-xml(serialize(element)) (CRM)', site='fn:serialize / fn:parse-xml'))
+    return res
+
+
 def impl_j2x(t: str, policy: str):
     opt = '' if policy == 'retain' else ', map{"duplicates":"%s"}' % POLICY_OPT[policy]
     try:
@@ -1107,6 +1367,13 @@ XML_TEXT = ['', 't', ' text ', 'a<b', 'x&y', ']]>', '"q\'', 'é\U0001f600', 'lin
             "it's", 't&u', '>>', 'e', 'a\rb', 'x\r\ny', '&amp;', '&#13;']
 
 
+# private-use code points: serialize_to_xml stands U+000D in by the first private-use code point (U+E000…) that is unused
+# in the subtree; every string the serializer emits (text, tail, attribute values, comment and PI data) must be able to
+# hold them, together with CR in text/tail.  Runs `E000 E001 …` make "the first unused one" differ between the places.
+XML_PUA = [chr(0xE000 + i) for i in range(16)] + ['\uf8ff', '\uf8fe', '\U000f0000', '\U0010fffd'] + \
+          [''.join(chr(0xE000 + i) for i in range(k)) for k in (2, 3, 5)] + ['x\ue000y', '\ue000\r', '\r\ue001', '&#13;\ue000']
+
+
 def gen_xml(rng, lib: str, depth: int, big: bool = False):
     """builds a tree with the given library; returns the root.  big: more than the serializer's 8 KiB
     output buffer, with long texts, so that chunk boundaries fall inside text and tags"""
@@ -1120,6 +1387,22 @@ def gen_xml(rng, lib: str, depth: int, big: bool = False):
         ns, n = rng.choice(XML_NS), rng.choice(XML_NAMES)
         return '{%s}%s' % (ns, n) if ns else n
 
+    pua = rng.random() < 0.3          # a tree whose strings hold private-use code points
+    p_pua = rng.choice([0.25, 0.5, 0.8])
+
+    def txt(kind='text'):
+        """text / tail / attribute value / comment / PI data"""
+        if pua and rng.random() < p_pua:
+            t = rng.choice(XML_PUA[:19] if rng.random() < 0.7 else XML_PUA)
+            if kind in ('comment', 'pi'):
+                t = t.replace('\r', '').replace('&#13;', '') or '\ue000'
+            return t
+        if kind == 'comment':
+            return rng.choice([' c ', 'x', 'a-b', ''])
+        if kind == 'pi':
+            return rng.choice(['d', 'a="b"', 'x y'])
+        return rng.choice(XML_TEXT)
+
     def build(d, top=False):
         if top and lib == 'lxml':
             # explicit prefixes on the root: lxml's *generated* ns0/ns1 prefixes collide on trees built
@@ -1128,22 +1411,32 @@ def gen_xml(rng, lib: str, depth: int, big: bool = False):
         else:
             el = E.Element(qname())
         for _ in range(rng.randrange(0, 3)):
-            el.set(qname(), rng.choice(XML_TEXT))
+            el.set(qname(), txt('attr'))
         if rng.random() < 0.6:
-            el.text = rng.choice(XML_TEXT)
+            el.text = txt()
         for _ in range(rng.randrange(0, 4) if d > 0 else 0):
             r = rng.random()
             if r < 0.12:
-                ch = E.Comment(rng.choice([' c ', 'x', 'a-b', '']))
+                ch = E.Comment(txt('comment'))
             elif r < 0.22:
-                ch = E.ProcessingInstruction(rng.choice(['pi', 'xml-stylesheet', 'p1']), rng.choice(['d', 'a="b"', 'x y']))
+                ch = E.ProcessingInstruction(rng.choice(['pi', 'xml-stylesheet', 'p1']), txt('pi'))
             else:
                 ch = build(d - 1)
             if rng.random() < 0.5:
-                ch.tail = rng.choice(XML_TEXT)
+                ch.tail = txt()
             el.append(ch)
         return el
     root = build(depth, True)
+    if pua and rng.random() < 0.85:
+        # correlate: a carriage return in some text or tail of the same tree, and a private-use code point in an attribute
+        els = [e for e in root.iter() if isinstance(e.tag, str)]
+        e = rng.choice(els)
+        if e is root or rng.random() < 0.5:
+            e.text = (e.text or '') + rng.choice(['\r', 'a\rb', '\r\n', '\ue000\r'])
+        else:
+            e.tail = (e.tail or '') + rng.choice(['\r', 't\ru', '\r\n'])
+        if rng.random() < 0.7:
+            rng.choice(els).set(rng.choice(['m', 'n1', 'k']), rng.choice(XML_PUA[:4] + XML_PUA[20:23]))
     if big:
         for i in range(rng.randrange(3, 9)):
             ch = E.SubElement(root, qname())
@@ -1238,6 +1531,14 @@ def check_xml(run: Run, case) -> list[Disagreement]:
     st.count('xml:%s:%s%s' % (case['lib'], variant, ':big' if case.get('big') else ''))
     if subtree_has_cr(node):
         st.count('xml:CR-in-character-data')
+    if hasattr(node, 'iter'):
+        def _pu(t):
+            return bool(t) and any(0xE000 <= ord(ch) <= 0xF8FF or ord(ch) >= 0xF0000 for ch in t)
+        pu_attr = any(_pu(v) for e in node.iter() if isinstance(e.tag, str) for v in e.attrib.values())
+        pu_other = any(_pu(e.text) or (e is not node and _pu(e.tail)) for e in node.iter())
+        if pu_attr or pu_other:
+            st.count('xml:private-use%s%s%s' % (':attribute' if pu_attr else '', ':text/tail/comment/pi' if pu_other else '',
+                                                 ' + CR in text/tail' if subtree_has_cr(node) else ''))
     out = []
     cj = {'kind': 'XML', 'lib': case['lib'], 'variant': variant, 'expr': expr, 'xml': spec if len(spec) < 3000 else spec[:3000] + '...'}
     if elem is not None:
@@ -1353,23 +1654,92 @@ def check_jxe(run: Run, case, ans) -> list[Disagreement]:
     return out
 
 
-def check_j2xe(run: Run, case) -> list[Disagreement]:
-    """whole values with escape:true (keys get escaped-key): value preserved exactly (no U+FFFD replacement)"""
-    t = case['t']
-    v2 = py_loads(t)
-    if any(isinstance(n, float) and (math.isinf(n) or math.isnan(n)) for n in all_numbers(v2)):
-        return []
-    spec = 'ERR:FOJS0006' if has_dup_keys(v2) else sem(v2)
+def read_elem_e(el) -> tuple:
+    """canonical form of an element of json-to-xml(…, escape:true): flags `escaped-key` / `escaped` included"""
+    m = re.match(r'\{%s\}(\w+)$' % re.escape(FN_NS), el.tag)
+    tag = NAMETAG.get(m.group(1), '?') if m else '?'
+    extra = sorted(k for k in el.attrib if k not in ('key', 'escaped', 'escaped-key'))
+    if extra:
+        tag = '?attr:' + ','.join(extra)
+
+    def flag(name):
+        x = el.get(name)
+        return '0' if x is None else '1' if x == 'true' else '?' + x
+    return (tag, el.get('key'), flag('escaped-key') + flag('escaped'), el.text, [read_elem_e(c) for c in el])
+
+
+def enc_elem_e(e) -> str:
+    tag, key, flags, text, children = e
+    return 'E%s(%s;%s;%s;[%s])' % (tag, '-' if key is None else 'K' + cps(key), flags,
+                                   '-' if text is None else 'X' + cps(text), ','.join(enc_elem_e(c) for c in children))
+
+
+def impl_j2xe(t: str, policy: str):
+    opt = '' if policy == 'retain' else ',"duplicates":"%s"' % POLICY_OPT[policy]
     try:
-        o = xq('xml-to-json(json-to-xml($t, map{"escape":true()}))', t=t)
-        impl = sem(py_loads(o))
+        doc = xq('json-to-xml($t, map{"escape":true()%s})' % opt, t=t)
+        root = doc[0].getroot() if isinstance(doc, list) else doc.getroot()
+        tree = enc_elem_e(read_elem_e(root))
     except Exception as e:
-        impl = err_text(e)
-    run.stats.count('j2xe:' + ('error-expected' if spec.startswith('ERR') else 'value'))
-    if impl != spec:
-        return [Disagreement({'kind': 'J2XE', 't': t}, impl, None, spec=spec, what='xml-to-json(json-to-xml(t, escape:true))',
-                             site='json-to-xml / xml-to-json, escape option')]
-    return []
+        return err_text(e), None
+    try:
+        out = xq('xml-to-json(json-to-xml($t, map{"escape":true()%s}))' % opt, t=t)
+        out = out if isinstance(out, str) else '?%r' % (out,)
+    except Exception as e:
+        out = err_text(e)
+    return tree, out
+
+
+def check_j2xe(run: Run, case, ans) -> list[Disagreement]:
+    """whole values with escape:true (strings get `escaped`, keys `escaped-key`): model = impl (tree with flags, text) and
+    value preserved exactly (no U+FFFD replacement) = spec"""
+    res = []
+    t, policy = case['t'], case.get('policy', 'retain')
+    v2 = case['_v2']
+    st = run.stats
+    f = fields(ans)
+    if has_dup_keys(v2) and policy == 'reject':
+        spec = 'ERR:FOJS0003'
+    elif policy == 'first':
+        ex = dedupe_first(v2)
+        spec = 'ERR:FOJS0006' if has_dup_keys(ex) else sem(ex)
+    else:
+        spec = 'ERR:FOJS0006' if has_dup_keys(v2) else sem(v2)
+    tree, out = impl_j2xe(t, policy)
+    if tree.startswith('ERR'):
+        impl_sem = tree
+    elif out.startswith(('ERR', '?')):
+        impl_sem = out
+    else:
+        try:
+            impl_sem = sem(py_loads(out))
+        except Exception as e:
+            impl_sem = 'ERR:unreadable:' + type(e).__name__
+    if f['xml'].startswith('ERR'):
+        model_sem = f['xml']
+    elif f['json'].startswith('ERR'):
+        model_sem = f['json']
+    else:
+        try:
+            model_sem = sem(py_loads(uncps(f['json'][3:])))
+        except Exception:
+            model_sem = 'ERR:unreadable'
+    st.count('j2xe:' + ('error-expected' if spec.startswith('ERR') else 'value') + ':' + policy)
+    if not tree.startswith('ERR'):
+        fl = re.findall(r';([01?][01?]);', tree)
+        st.count('j2xe:flags ' + ('escaped-key+escaped' if any(x[0] == '1' for x in fl) and any(x[1] == '1' for x in fl)
+                                  else 'escaped-key' if any(x[0] == '1' for x in fl) else 'escaped' if any(x[1] == '1' for x in fl) else 'none'))
+    if impl_sem != spec:
+        res.append(Disagreement(case_json(case), impl_sem, model_sem, spec=spec, what='xml-to-json(json-to-xml(t, escape:true))',
+                                site='json-to-xml / xml-to-json, escape option'))
+    if tree != f['xml']:
+        res.append(Disagreement(case_json(case), tree, f['xml'], what='json-to-xml(escape:true) tree with flags', site='json-to-xml'))
+    elif not tree.startswith('ERR'):
+        m_out = uncps(f['json'][3:]) if f['json'].startswith('ok:') else f['json']
+        if out != m_out:
+            res.append(Disagreement(case_json(case), out if out.startswith('ERR') else cps(out), f['json'],
+                                    what='xml-to-json text (flags read)', site='xml-to-json'))
+    return res
 
 
 # error paths and option variants of the anchored functions (line tracing, docs/C17.md): expected results by
@@ -1825,12 +2195,22 @@ def driver_line(case) -> str | None:
         return 'PARSE p=%s t=%s' % (case['policy'] or 'first', cps(case['t']))
     if k == 'J2X':
         return 'J2X p=%s r=%s v=%s' % (case['policy'], rnd_table(case['_v2']), enc(case['_v2']))
+    if k == 'J2XE':
+        return 'J2XE p=%s r=%s v=%s' % (case.get('policy', 'retain'), rnd_table(case['_v2']), enc(case['_v2']))
     if k == 'X2J':
         return 'X2J e=' + enc_elem(case['elem'])
     if k == 'XESC':
         return 'XESC s=' + cps(case['s'])
     if k == 'JXE':
         return 'JXE s=' + cps(case['s'])
+    if k == 'CRM':
+        return crm_line(case)
+    if k == 'PARSEWS':
+        return 'PARSEWS p=%s t=%s' % (case['policy'] or 'first', cps(case['t']))
+    if k == 'SERWS':
+        if case.get('_ws') is None:
+            return None
+        return 'SERWS v=%s w=%s' % (enc(case['v']), ','.join(cps(w) for w in case['_ws']))
     return None
 
 
@@ -1840,7 +2220,7 @@ def evaluate(run: Run, cases: list[dict]) -> list[list[Disagreement]]:
     # prepare
     live = []
     for i, c in enumerate(cases):
-        if c['kind'] == 'J2X':
+        if c['kind'] in ('J2X', 'J2XE'):
             try:
                 c['_v2'] = py_loads(c['t'])
             except Exception as e:          # generator bug, not a verdict
@@ -1849,6 +2229,8 @@ def evaluate(run: Run, cases: list[dict]) -> list[list[Disagreement]]:
                 continue
         if c['kind'] == 'SER':
             c['_impl'] = impl_serialize(c['v'], c.get('literal', False))
+        if c['kind'] == 'SERWS':
+            prepare_serws(run, c)
         live.append(i)
     lines, idx = [], []
     for i in live:
@@ -1897,7 +2279,13 @@ def evaluate(run: Run, cases: list[dict]) -> list[list[Disagreement]]:
         elif k == 'JXE':
             results[i] = check_jxe(run, c, a)
         elif k == 'J2XE':
-            results[i] = check_j2xe(run, c)
+            results[i] = check_j2xe(run, c, a)
+        elif k == 'CRM':
+            results[i] = check_crm(run, c, a)
+        elif k == 'SERWS':
+            results[i] = check_serws(run, c, a)
+        elif k == 'PARSEWS':
+            results[i] = check_parsews(run, c, a)
     if results:
         results[0] = reuse_disagreements() + results[0]      # the replayable histories first
     return results
@@ -1909,6 +2297,24 @@ def V(t: str) -> Any:
 
 
 CORPUS: list[dict] = [
+    # CR mark x private-use code points: attribute value / comment / tail holding U+E000…, and F17x (namespace URI)
+    {'kind': 'CRM', 'uri': None, 'attrs': [('k', '\ue000')], 'text': 'x\ry', 'tail': None, 'comment': None},
+    {'kind': 'CRM', 'uri': None, 'attrs': [('k', '\ue001'), ('m', '\ue000')], 'text': '\ue002\r', 'tail': '\ue003', 'comment': '\ue004'},
+    {'kind': 'CRM', 'uri': 'urn:one', 'attrs': [('k', '\ue000')], 'text': 'x', 'tail': 'u\rv', 'comment': None},
+    {'kind': 'CRM', 'uri': None, 'attrs': [('k', '\ue000')], 'text': 'x', 'tail': None, 'comment': None},
+    {'kind': 'CRM', 'uri': 'u\ue000', 'attrs': [], 'text': '\r', 'tail': None, 'comment': None},
+    {'kind': 'CRM', 'uri': 'u\ue000', 'attrs': [], 'text': 'x', 'tail': None, 'comment': None},
+    # phase 5: whitespace around every structural character, all four ws characters, indent output, json-doc
+    {'kind': 'SERWS', 'v': [1, Obj([('a', None), ('b /', [True, False, -0.0, 1e21, 'x y\t"'])]), [], Obj([])], 'mode': 'indent', 'wseed': 0, 'doc': True},
+    {'kind': 'SERWS', 'v': [1, Obj([('a', None), ('b /', [True, False, -0.0, 1e21, 'x y\t"'])]), [], Obj([])], 'mode': 'pad', 'wseed': 1, 'doc': True},
+    {'kind': 'SERWS', 'v': ['a  b , c : d ] e } f [ g { h', Obj([(' k ,', ' '), (' :', '[ 1 , 2 ]')])], 'mode': 'pad', 'wseed': 3, 'doc': True},
+    {'kind': 'SERWS', 'v': 12, 'mode': 'pad-long', 'wseed': 2, 'doc': True}, {'kind': 'SERWS', 'v': [], 'mode': 'pad', 'wseed': 5, 'doc': False},
+    {'kind': 'SERWS', 'v': Obj([]), 'mode': 'pad', 'wseed': 7, 'doc': False}, {'kind': 'SERWS', 'v': None, 'mode': 'indent', 'wseed': 0, 'doc': False},
+    {'kind': 'PARSEWS', 't': ' \t\r\n[ 1 ,\n{ "a" :\r2 , "a"\t: [ ] } , { } ]\n', 'policy': None, 'doc': True},
+    {'kind': 'PARSEWS', 't': '1 2', 'policy': None, 'doc': False}, {'kind': 'PARSEWS', 't': 'tr ue', 'policy': None, 'doc': False},
+    {'kind': 'PARSEWS', 't': '[1,\x0b2]', 'policy': None, 'doc': False}, {'kind': 'PARSEWS', 't': '\xa01', 'policy': None, 'doc': False},
+    {'kind': 'PARSEWS', 't': '- 1', 'policy': None, 'doc': False}, {'kind': 'PARSEWS', 't': '[1 , ]', 'policy': None, 'doc': False},
+    {'kind': 'PARSEWS', 't': ' ', 'policy': None, 'doc': False}, {'kind': 'PARSEWS', 't': '1\n', 'policy': 'reject', 'doc': False},
     # F17a: backslash followed by n / b / u0041 (was: unescape(escape(s)) != s)
     {'kind': 'ESC', 's': '\\n', 'escaped': False}, {'kind': 'ESC', 's': 'a\\nb', 'escaped': False},
     {'kind': 'ESC', 's': '\\b', 'escaped': False}, {'kind': 'ESC', 's': '\\u0041', 'escaped': False},
@@ -1941,6 +2347,9 @@ CORPUS: list[dict] = [
     {'kind': 'SERH', 'lib': 'etree', 'seed': 7, 'steps': [{'elem': k, 'node': 'self', 'params': 8} for k in range(1, 6)]},
     {'kind': 'JXE', 's': '/'}, {'kind': 'JXE', 's': '\\/'}, {'kind': 'JXE', 's': 'b\\"'}, {'kind': 'JXE', 's': '\\uZZZZ'}, {'kind': 'JXE', 's': 'a\\'},
     {'kind': 'J2XE', 't': '{"a\\\\b":[],"":[],"a":[false,null]}'},
+    {'kind': 'J2XE', 't': '{"k\\\\/\\n\\u0001":{"\\\\":["\\/","\\\\/","b\\\\\\"","\\\\uZZZZ","\\ufffe\\u0000",1e21,-0.0,10000000000000000000000]},"plain":"x"}'},
+    {'kind': 'J2XE', 't': '{"a\\n":1,"a\\n":2}', 'policy': 'first'}, {'kind': 'J2XE', 't': '{"a\\n":1,"a\\n":2}', 'policy': 'reject'},
+    {'kind': 'J2XE', 't': '{"a\\n":1,"a\\n":2}'}, {'kind': 'J2XE', 't': '{"\\\\n":1,"\\n":2}'},
     {'kind': 'XESC', 's': 'x\ry'}, {'kind': 'XESC', 's': 'a&b<c>d"e\'f\r\n\tg]]>'},
     {'kind': 'X2J', 'elem': ('n', None, 'x', [])}, {'kind': 'X2J', 'elem': ('m', None, None, [('n', None, None, [])])},
     {'kind': 'X2J', 'elem': ('m', None, None, [('b', 'k', '1', []), ('b', 'k', '0', [])])},
@@ -1978,6 +2387,28 @@ def gen_cases(run: Run) -> list[dict]:
         v = gen_value(rng, rng.choice([1, 2, 3]), j_kinds + (['nonxml'] if rng.random() < 0.15 else []), dups=0.5, width=5)
         cases.append({'kind': 'PARSE', 't': write_json(rng, v, loose=False),
                       'policy': rng.choice([None, 'first', 'last', 'reject'])})
+    for _ in range(120 * n):       # CR mark on the whole serialized element, private-use code points everywhere
+        cases.append(gen_crm(rng))
+    for i in range(200 * n):       # phase 5: whitespace-padded / indented renderings of serialize(v)
+        v = gen_value(rng, rng.choice([0, 1, 2, 3, 5]), ser_kinds)
+        if rng.random() < 0.25:       # whitespace next to structural characters INSIDE strings and keys
+            v = [v, rng.choice(WS_STRINGS), Obj([(rng.choice(WS_STRINGS), rng.choice(WS_STRINGS))])]
+        cases.append({'kind': 'SERWS', 'v': v, 'mode': rng.choice(['indent', 'pad', 'pad', 'pad-long']), 'wseed': rng.randrange(10 ** 9),
+                      'doc': i % 4 == 0})
+    for i in range(150 * n):       # arbitrary input texts with whitespace; some truncated / with a stray character
+        v = gen_value(rng, rng.choice([0, 1, 2, 3]), j_kinds, dups=0.3 if rng.random() < 0.3 else 0.0)
+        t = write_json(rng, v, loose=True)
+        for _ in range(6):
+            if floats_exact(t):
+                break
+            t = write_json(rng, v, loose=True)
+        r = rng.random()
+        if r < 0.08 and t:
+            t = t[:rng.randrange(len(t))]
+        elif r < 0.16:
+            k = rng.randrange(len(t) + 1)
+            t = t[:k] + rng.choice([' ', '\x0b', '\x0c', '\xa0', ',', '1 2', '\u2028', 'tr ue']) + t[k:]
+        cases.append({'kind': 'PARSEWS', 't': t, 'policy': rng.choice([None, None, 'first', 'last', 'reject']), 'doc': i % 5 == 0})
     for _ in range(400 * n):
         cases.append({'kind': 'X2J', 'elem': gen_elem(rng, rng.choice([0, 1, 2, 3]))})
     for lib in ('etree', 'lxml'):
@@ -1989,6 +2420,30 @@ def gen_cases(run: Run) -> list[dict]:
             if ctail is not None:
                 E.SubElement(b, 'c').tail = ctail
             cases.append({'kind': 'XML', 'lib': lib, 'variant': 'inner', '_root': root, '_elem': b, 'big': False})
+    for lib in ('etree', 'lxml'):     # CR in text/tail x private-use code points in every kind of emitted string
+        E = ep()['ET'] if lib == 'etree' else __import__('lxml.etree').etree
+        for where, val, text, tail in (('attr', '\ue000', 'x\ry', None), ('attr', '\ue001', '\ue000\r', None), ('attr', '\ue000', 'x', 't\ru'),
+                                       ('rootattr', '\ue000', 'x\ry', None), ('comment', '\ue000', 'x\ry', None), ('pi', '\ue000', 'x\ry', None),
+                                       ('text', '\ue000', 'x\ry', None), ('tail', '\ue000', 'x\ry', 'u'), ('attr', '\ue000\ue001\ue002', 'a\r\nb', None),
+                                       ('attr', '\uf8ff\U000f0000', '\r', None), ('attr', '\ue000', 'x', None)):
+            root = E.Element('a')
+            b = E.SubElement(root, 'b')
+            b.text, b.tail = text, tail
+            if where == 'attr':
+                b.set('k', val)
+            elif where == 'rootattr':
+                root.set('k', val)
+            elif where == 'comment':
+                b.append(E.Comment(val))
+            elif where == 'pi':
+                b.append(E.ProcessingInstruction('p1', val))
+            elif where == 'text':
+                E.SubElement(b, 'c').text = val
+            elif where == 'tail':
+                E.SubElement(b, 'c').tail = val
+            cases.append({'kind': 'XML', 'lib': lib, 'variant': 'root', '_root': root, 'big': False})
+            if where != 'rootattr':
+                cases.append({'kind': 'XML', 'lib': lib, 'variant': 'inner', '_root': root, '_elem': b, 'big': False})
     for k in range(250 * n):
         lib = rng.choice(['etree', 'lxml'])
         variant = rng.choice(['root', 'root', 'inner', 'inner', 'decl', 'doc'])
@@ -2042,7 +2497,8 @@ def gen_cases(run: Run) -> list[dict]:
         cases.append({'kind': 'JXE', 's': gen_string(rng, allow_nonxml=rng.random() < 0.4, p_special=0.45).replace('\ud800', '').replace('\udc00', '')})
     for _ in range(150 * n):
         v = gen_value(rng, rng.choice([0, 1, 2, 3]), j_kinds + (['nonxml'] if rng.random() < 0.3 else []), dups=0.1 if rng.random() < 0.2 else 0.0)
-        cases.append({'kind': 'J2XE', 't': write_json(rng, v, loose=rng.random() < 0.5)})
+        cases.append({'kind': 'J2XE', 't': write_json(rng, v, loose=rng.random() < 0.5),
+                      'policy': 'retain' if rng.random() < 0.75 else rng.choice(['first', 'reject'])})
     rng.shuffle(cases)          # interleave the families: a reused token sees different kinds of inputs in turn
     return cases
 
@@ -2155,14 +2611,14 @@ def shrink(d: Disagreement) -> Disagreement:
     case = getattr(d, '_case', None)
     if isinstance(d.case, dict) and d.case.get('kind') in ('REUSE', 'MULTI', 'PURITY', 'PATHS', 'SERP', 'SERH', 'NEG'):
         return d                      # already a minimal replayed history
-    if case is None or case['kind'] in ('XML', 'X2J', 'MULTI', 'REUSE'):
+    if case is None or case['kind'] in ('XML', 'X2J', 'MULTI', 'REUSE', 'PARSEWS', 'CRM'):
         return d
     sub = Run(PROP, 'quick', 0)
     best, bestd = case, d
     for _ in range(25):
         if best['kind'] in ('ESC', 'UNESC'):
             cands = [dict(best, s=s) for s in smaller_values(best['s'])]
-        elif best['kind'] == 'SER':
+        elif best['kind'] in ('SER', 'SERWS'):
             cands = [dict(best, v=v) for v in smaller_values(best['v'])]
         else:
             try:
@@ -2205,7 +2661,7 @@ def body(run: Run) -> int:
                       'namespaces, attributes, mixed content, comments, PIs, CR, > 8 KiB, inner elements with tails, declarations, document nodes); '
                       'MULTI/REUSE token reuse; XESC escaping functions; JXE/J2XE escape:true; NEG error exits and options. '
                       'distinct = distinct canonical inputs')
-    run.prove(['EPV.Props.C17'], ['EPV.Model.Json', 'EPV.Spec.RFC8259'])
+    run.prove(['EPV.Props.C17', 'EPV.Props.C17Ws', 'EPV.Props.C17Esc', 'EPV.Props.C17Cr'], ['EPV.Model.Json', 'EPV.Spec.RFC8259', 'EPV.Model.JsonTokens', 'EPV.Spec.RFC8259Ws', 'EPV.Model.JsonXmlEsc', 'EPV.Model.XmlCrMark'])
     run.log('proofs checked')
     try:
         correspond(run, [dict(c) for c in CORPUS] + gen_cases(run))
